@@ -38,7 +38,10 @@ def do_replay(path: str) -> int:
     from .replay import run_replay
     with open(path, encoding='utf-8') as fh:
         rec = json.load(fh)
-    if rec.get('kind') == 'custom':
+    if rec.get('replay_fn'):
+        mod = importlib.import_module(rec['module'])
+        res = getattr(mod, rec['replay_fn'])(rec['call'])
+    elif rec.get('kind') == 'custom':
         mod = importlib.import_module(rec['module'])
         ok, info = mod.replay_custom(rec)
         res = {'ok': ok, 'exc': info}
@@ -93,7 +96,9 @@ def main() -> int:
     key_fn = getattr(mod, 'finding_key', lambda ob: ob.call or ob.name)
     printed_known = set()
     for f in known.values():
-        if f.get('kind') == 'custom':
+        if f.get('replay_fn'):
+            res = getattr(importlib.import_module(f['module']), f['replay_fn'])(f['call'])
+        elif f.get('kind') == 'custom':
             ok, info = mod.replay_custom(f)
             res = {'ok': ok, 'exc': info}
         else:
@@ -128,6 +133,10 @@ def main() -> int:
         path = os.path.join(rdir, f'{args.tier}_{len(violations)}.json')
         rec = {'property': pid, 'module': ob.module or modname, 'call': ob.call,
                'obligation': ob.name, 'detail': ob.detail, 'key': key}
+        spec_by_name = {sp.name: sp for sp in getattr(mod, 'SPECS', [])}
+        base = ob.name.split('__')[0]
+        if base in spec_by_name and spec_by_name[base].replay_fn:
+            rec['replay_fn'] = spec_by_name[base].replay_fn
         if ob.replay_path:      # engine wrote its own replay record
             path = ob.replay_path
         else:
